@@ -1,7 +1,11 @@
 """C01 - Sequence views obey the slice / reverse-complement algebra.
 
 Stage P: Properties/C01.v (Model/View.v proved equal to Python slice semantics
-on the plain string, Lib/PySlice.v).
+on the plain string, Lib/PySlice.v) + the translator tie: the integer kernel of
+the three view classes is re-translated from the current source text into
+coq/gen/ViewGen.v (harness/translators/py2gallina.py, fail-closed) and proved
+equal to the model for all arguments (Proofs/ViewGenEq.v); the headline
+theorems are transported to the generated functions (gen_* theorems).
 Stage C: the three view classes (old SeqView, new SeqView, SeqDataView) and the
 two Sequence implementations against the Coq model (vm_compute), batched: one
 Coq case = one whole lattice / chain, compared through a digest and re-run in
@@ -13,13 +17,95 @@ from __future__ import annotations
 
 import json
 import random
+import re
+import subprocess
 import time
 
 from vcheck import core
 from vcheck.val import Exc, cbool, from_jsonable, jsonable, zlit, zopt, zstr
 
 PROP = "C01"
-COQ_TARGETS = ["theories/Model/ViewRun.vo"]
+COQ_TARGETS = ["theories/Model/ViewRun.vo", "theories/Proofs/ViewGenEq.vo"]
+MODEL_TARGETS = ["theories/Model/ViewRun.vo"]
+TRANSLATOR = "harness/translators/py2gallina.py"
+
+
+# ------------------------------------------------------------------ translator tie
+
+def run_translator():
+    """regenerate gen/ViewGen.v from the current source text; returns (error string or None, records)"""
+    core.GEN.mkdir(exist_ok=True)
+    rec = core.GEN / "ViewGen.records.json"
+    if rec.exists():
+        rec.unlink()
+    r = subprocess.run([core.PY, str(core.VERIF / TRANSLATOR), "--repo", str(core.REPO), "--records", str(rec)],
+                       capture_output=True, text=True, env=core.impl_env(), cwd=str(core.VERIF))
+    out = core.GEN / "ViewGen.v"
+    if r.returncode != 0:
+        return (r.stderr or r.stdout).strip()[-800:] or f"translator exited with {r.returncode}", []
+    if not r.stdout.rstrip().endswith("End Sdv."):
+        return "translator produced truncated output", []
+    if not out.exists() or out.read_text() != r.stdout:
+        out.write_text(r.stdout)
+    try:
+        records = json.loads(rec.read_text())
+    except (OSError, ValueError) as e:
+        return f"translator wrote no function records: {e}", []
+    return None, records
+
+
+def pre_build():
+    err, _ = run_translator()
+    if err:
+        raise core.CheckError("py2gallina translator failed: " + err)
+
+
+def explain_tie_break(problem, pr):
+    """a build failure inside ViewGenEq.v / ViewGen.v is a broken translator tie: name the lemma / generated function"""
+    m = re.search(r"(Proofs/ViewGenEq\.v|gen/ViewGen\.v):(\d+)", problem)
+    if not m:
+        return problem
+    path = core.COQ / ("theories/" + m.group(1) if m.group(1).startswith("Proofs") else m.group(1))
+    try:
+        lines = path.read_text().split("\n")[: int(m.group(2))]
+    except OSError:
+        return problem
+    module = lemma = None
+    for ln in lines:
+        mm = re.match(r"Module (\w+)\.", ln)
+        if mm and mm.group(1) != "G":
+            module = mm.group(1)
+        mm = re.match(r"(?:Lemma|Definition)\s+(\w+)", ln)
+        if mm:
+            lemma = mm.group(1)
+    what = ("the function generated from the current source is no longer provably equal to the model function of Model/View.v"
+            if m.group(1).startswith("Proofs") else "the generated Gallina does not type-check")
+    return f"translator tie broken at {module}.{lemma}: {what} ({problem})"
+
+
+def tie_report(terr, records, pr):
+    """coverage['translator_tie']: what was translated and whether equality with the model was proved in this run"""
+    src = core.strip_comments((core.COQ / "theories" / "Proofs" / "ViewGenEq.v").read_text())
+    lemmas = {}
+    for m in re.finditer(r"Module (\w+Eq)\.(.*?)End \1\.", src, flags=re.S):
+        lemmas[m.group(1)] = re.findall(r"Lemma\s+(\w+_eq\w*)", m.group(2))
+    gen_thms = [t for t in pr.get("theorems", {}) if t.startswith("gen_")]
+    proved = terr is None and not pr.get("problems") and bool(gen_thms) and all(pr["theorems"][t]["ok"] for t in gen_thms)
+    if terr is not None:
+        status = "broken: translator failed closed: " + terr
+    elif pr.get("problems"):
+        status = "broken: " + "; ".join(str(x) for x in pr["problems"])[:600]
+    else:
+        status = "ok"
+    return dict(
+        status=status, translator=TRANSLATOR, generated="coq/gen/ViewGen.v (modules Old, New, Sdv)",
+        equality_file="coq/theories/Proofs/ViewGenEq.v", equality_with_model_proved=proved,
+        equality_lemmas=lemmas if proved else {}, transported_theorems=gen_thms if proved else [],
+        functions=records,
+        reading="Python int = Z, // and % = Z.div / Z.modulo (divisors restricted to self.step / abs(self.step)); optional int = option Z; "
+                "falling off the end = Err E_Type; assert = Err E_Other when false; len(self.seq) read as the field _seq_len (justified by "
+                "gen_*_init_seq_len); seqid / alphabet / the SeqsData object are dropped",
+    )
 IMPL = "c01_impl.py"
 MAX_LOCALISE = 5
 ORIGINS = {"old": ["standalone", "coll_get", "coll_rc", "aln_get", "aln_gapped"],
@@ -476,8 +562,21 @@ def run(tier: str, seed: int) -> int:
     _SEEN.clear()
     MATRIX.clear()
     rng = random.Random(seed * 7919 + 1)
-    pr = core.proof_stage(PROP, COQ_TARGETS)
-    core.proof_coverage(rep, pr, "make theories/Properties/C01.vo && coqc gen/assum_C01.v (Print Assumptions)", [
+    terr, records = run_translator()
+    if terr is None:
+        pr = core.proof_stage(PROP, COQ_TARGETS)
+    else:
+        # the source left the translatable fragment: no proof obligation counts as discharged, the tie is reported broken and
+        # the decision falls to the (widened) behavioural correspondence below
+        pr = {"obligations": len(core.property_theorems(PROP)), "discharged": 0, "theorems": {},
+              "problems": ["translator tie broken: py2gallina failed closed: " + terr]}
+    if pr["problems"]:
+        core.make(MODEL_TARGETS)          # the model itself does not depend on the generated file: keep it runnable
+        pr["problems"] = [explain_tie_break(x, pr) for x in pr["problems"]]
+    core.proof_coverage(rep, pr, "py2gallina.py > gen/ViewGen.v && make theories/Properties/C01.vo && coqc gen/assum_C01.v (Print Assumptions)", [
+        "translator harness/translators/py2gallina.py: trusted to emit Gallina that means what the Python text of the view kernel means, "
+        "for the small fragment it accepts (integer expressions, comparisons, and/or/not, if/elif/else with early return, local "
+        "assignments, field and property reads, keyword construction, raise); anything else aborts the translation",
         "Python slice semantics Lib/PySlice.v (transcribed from CPython PySlice_AdjustIndices) - the harness oracle uses CPython's own slicing",
         "the IUPAC complement table Model.View.comp (compared character by character with both moltype implementations in every run)",
         "methods other than str/len/iter/getitem/rc/to_rna/to_dna/copy/parent_coordinates are not modelled: compared between the "
@@ -549,6 +648,7 @@ def run(tier: str, seed: int) -> int:
         methods_compared=listed, methods_skipped_need_arguments=skipped,
         realisation_matrix=matrix_report(),
         model_impl_disagreements=len(disagreements),
+        translator_tie=tie_report(terr, records, pr),
         exhaustive=False,
         partial=[
             "every public read-only method other than str/len/iter/getitem/rc/to_rna/to_dna/copy/parent_coordinates is compared "
